@@ -39,7 +39,7 @@ func checkC14(c *Check) {
 			if !ok || callName(ci.Common()) != "dynamic" {
 				return
 			}
-			ta, isTA := strip(ci.Common().Value).(*ssa.TypeAssert)
+			ta, isTA := assertOf(ci.Common().Value)
 			if !isTA || namedName(ta.AssertedType) != "ReturnHandler" {
 				return
 			}
@@ -48,7 +48,7 @@ func checkC14(c *Check) {
 		if rh == nil {
 			c.Bad(key+":return-handler", p.FuncPos(run), "returned values are never handed to a ReturnHandler")
 		} else {
-			ta := strip(rh.Common().Value).(*ssa.TypeAssert)
+			ta, _ := assertOf(rh.Common().Value)
 			lookedUp := vCall("(reflect.Value).Interface", vCall("(inject.TypeMapper).Value", vAny, vCall("reflect.TypeOf", func(v ssa.Value) bool {
 				cst, ok := strip(v).(*ssa.Const)
 				return ok && namedName(cst.Type()) == "ReturnHandler"
@@ -381,4 +381,14 @@ func checkC14(c *Check) {
 	} else {
 		c.Anchor("inject.FastInvoker")
 	}
+}
+
+// assertOf: the type assertion producing v, in the plain form x.(T) or the comma-ok form.
+func assertOf(v ssa.Value) (*ssa.TypeAssert, bool) {
+	v = strip(v)
+	if e, ok := v.(*ssa.Extract); ok && e.Index == 0 {
+		v = e.Tuple
+	}
+	ta, ok := v.(*ssa.TypeAssert)
+	return ta, ok
 }
